@@ -264,6 +264,9 @@ func drain(c vnet.Conn) {
 func (e *env) finish(shutdownAfter bool) {
 	e.wg.Wait()
 	if shutdownAfter {
+		// Shutdown is not part of this scenario: it only cleans up (and lets the final state be checked), under one
+		// canonical schedule.  Its interleavings with everything else are the subject of the other harnesses.
+		vsched.StopExploring()
 		e.shutdown()
 	}
 	e.bg.Wait()
